@@ -1347,6 +1347,229 @@ static void wlBinvQ(Ctx& c, int nexec, int len)
    }
 }
 
+static std::string g_tmpdir;
+// ---------------------------------------------------------------- C20: the C interface, mirrored call by call on a C++ object
+// Every step performs the C++ call on the mirror object (an ordinary event, validated by the specification) and then the
+// C call on the C object ("ccall" event: C arguments, C results next to the mirror's results, projection of the C object).
+#include "soplex_interface.h"
+template <class T> struct Guarded
+{
+   static const int PAD = 4; std::vector<T> buf; int n; T sentinel;
+   Guarded(int n_, T fill, T sent) : buf((size_t)(n_ + 2 * PAD), fill), n(n_), sentinel(sent) { for(int i = 0; i < PAD; i++) { buf[(size_t)i] = sent; buf[(size_t)(PAD + n + i)] = sent; } }
+   T* p() { return buf.data() + PAD; }
+   T& operator[](int i) { return buf[(size_t)(PAD + i)]; }
+   bool ok() const { for(int i = 0; i < PAD; i++) if(buf[(size_t)i] != sentinel || buf[(size_t)(PAD + n + i)] != sentinel) return false; return true; }
+};
+typedef Guarded<double> GD; typedef Guarded<long> GL;
+static const double DSENT = 12345.678901; static const long LSENT = 0x5a5a5a5a5aL;
+static std::string jlongs(GL& a, int n) { return jarr(n, [&](int i) { return jq(std::to_string(a[i])); }); }
+static std::string jgd(GD& a, int n) { return jarr(n, [&](int i) { return jq(qd(a[i])); }); }
+static void ccall(Ctx& c, int oc, int om, const char* cname, const std::string& cargs, const std::string& g, const std::string& cres, const std::string& mres, bool canary)
+{
+   J ev; ev.s("a", "ccall").i("o", oc).i("mirror", om).s("cname", cname).raw("cargs", cargs).raw("g", g).raw("cres", cres).raw("mres", mres).b("canary", canary);
+   emit(c, oc, ev);
+}
+static std::string fileBytesDigest(const std::string& fn) { std::ifstream f(fn, std::ios::binary); std::stringstream ss; ss << f.rdbuf(); std::string s = ss.str(); unsigned long h = 1469598103934665603UL; for(unsigned char ch : s) { h ^= ch; h *= 1099511628211UL; } return std::to_string(s.size()) + ":" + std::to_string(h); }
+static void wlCInt(Ctx& c, int nexec, int len)
+{
+   for(int e = 0; e < nexec; e++)
+   {
+      T().line("{\"a\":\"Reset\"}");
+      c.objs.clear(); c.nextId = 0; g_wellScaled = true;
+      Gen gen{c.rng, c.rng.coin(1, 3) ? 2 : 0};
+      // the mirror first, then the C object
+      int om = createObj(c);
+      pending() = "SoPlex_create"; void* h = SoPlex_create();
+      int oc = c.nextId++; c.objs[oc].reset((SoPlex*)h); c.noInternal[oc] = false; c.modsSinceBasis[oc] = 0;
+      SoPlex_setIntParam(h, SoPlex::VERBOSITY, 0);
+      { J ev; ev.s("a", "create").i("o", oc); emit(c, oc, ev); }
+      SoPlex& m = *c.objs[om];
+      bool rational = c.rng.coin(1, 3);
+      // a deterministic, robust configuration on both sides (objective sense through the C interface)
+      { int sense = c.rng.coin() ? -1 : 1; setInt(c, om, "OBJSENSE", SoPlex::OBJSENSE, sense); pending() = "SoPlex_setIntParam"; SoPlex_setIntParam(h, SoPlex::OBJSENSE, sense);
+        J a; a.i("code", (int)SoPlex::OBJSENSE).i("value", sense); ccall(c, oc, om, "setIntParam", a.str(), "{}", "[]", "[]", true); }
+      { bool v = c.rng.coin(); setBool(c, om, "ENSURERAY", SoPlex::ENSURERAY, v); pending() = "SoPlex_setBoolParam"; SoPlex_setBoolParam(h, SoPlex::ENSURERAY, v ? 1 : 0);
+        J a; a.i("code", (int)SoPlex::ENSURERAY).i("value", v ? 1 : 0); ccall(c, oc, om, "setBoolParam", a.str(), "{}", "[]", "[]", true); }
+      if(rational)
+      {
+         setInt(c, om, "READMODE", SoPlex::READMODE, SoPlex::READMODE_RATIONAL); setInt(c, om, "SOLVEMODE", SoPlex::SOLVEMODE, SoPlex::SOLVEMODE_RATIONAL);
+         setInt(c, om, "CHECKMODE", SoPlex::CHECKMODE, SoPlex::CHECKMODE_RATIONAL); setInt(c, om, "SYNCMODE", SoPlex::SYNCMODE, SoPlex::SYNCMODE_AUTO);
+         setReal(c, om, "FEASTOL", SoPlex::FEASTOL, 0.0); setReal(c, om, "OPTTOL", SoPlex::OPTTOL, 0.0);
+         pending() = "SoPlex_setRational"; SoPlex_setRational(h); ccall(c, oc, om, "setRational", "{}", "{}", "[]", "[]", true);
+         setReal(c, om, "TIMELIMIT", SoPlex::TIMELIMIT, 20.0); SoPlex_setRealParam(h, SoPlex::TIMELIMIT, 20.0);
+         { J a; a.i("code", (int)SoPlex::TIMELIMIT).s("value", "20"); ccall(c, oc, om, "setRealParam", a.str(), "{}", "[]", "[]", true); }
+      }
+      auto ratPair = [&](long& n, long& d) { n = c.rng.R(-6, 6); d = c.rng.coin() ? 1 : c.rng.R(2, 7); };
+      for(int step = 0; step < len; step++)
+      {
+         int nr = m.numRows(), nc = m.numCols(); int k = c.rng.R(0, 99);
+         if(k < 12 && nc < 5)
+         {
+            // addColReal: dense array, possibly longer than the number of rows (trailing zeros) or creating rows implicitly
+            int extra = c.rng.coin(1, 3) ? c.rng.R(1, 2) : 0; int size = nr + extra; bool implicit = nr < 5 && extra > 0 && c.rng.coin(1, 3);
+            GD ent(size, 0.0, DSENT); DSVector v; std::vector<std::pair<int, std::string>> ej; int cnt = 0;
+            for(int i = 0; i < size; i++) if((i < nr || implicit) && c.rng.coin()) { double x = gen.coef(); ent[i] = x; v.add(i, x); ej.push_back({i, qd(x)}); cnt++; }
+            double lo = gen.lower(), up = gen.upperFrom(lo), obj = gen.cost(); int nnz = c.rng.coin(1, 4) ? 0 : cnt;
+            if(rational) { lo = lo <= -infinity ? -3.0 : lo; up = up >= infinity ? lo + 4 : up; }
+            m.addColReal(LPCol(obj, v, up, lo)); std::string g = colJson(obj, lo, jsp(ej), up); modEvent(c, om, "addCol", g);
+            pending() = "SoPlex_addColReal"; SoPlex_addColReal(h, ent.p(), size, nnz, obj, lo, up);
+            J a; a.raw("entries", jgd(ent, size)).i("size", size).i("nnz", nnz).q("obj", obj).q("lb", lo).q("ub", up); ccall(c, oc, om, "addColReal", a.str(), g, "[]", "[]", ent.ok()); c.modsSinceBasis[oc]++;
+         }
+         else if(k < 24 && nr < 5)
+         {
+            int extra = c.rng.coin(1, 3) ? c.rng.R(1, 2) : 0; int size = nc + extra; bool implicit = nc < 5 && extra > 0 && c.rng.coin(1, 3);
+            GD ent(size, 0.0, DSENT); DSVector v; std::vector<std::pair<int, std::string>> ej; int cnt = 0;
+            for(int i = 0; i < size; i++) if((i < nc || implicit) && c.rng.coin()) { double x = gen.coef(); ent[i] = x; v.add(i, x); ej.push_back({i, qd(x)}); cnt++; }
+            double lhs, rhs; sides(c, gen, lhs, rhs); int nnz = c.rng.coin(1, 4) ? 0 : cnt;
+            if(rational) { lhs = lhs <= -infinity ? -3.0 : lhs; rhs = rhs >= infinity ? lhs + 4 : rhs; }
+            m.addRowReal(LPRow(lhs, v, rhs)); std::string g = rowJson(lhs, jsp(ej), rhs); modEvent(c, om, "addRow", g);
+            pending() = "SoPlex_addRowReal"; SoPlex_addRowReal(h, ent.p(), size, nnz, lhs, rhs);
+            J a; a.raw("entries", jgd(ent, size)).i("size", size).i("nnz", nnz).q("lb", lhs).q("ub", rhs); ccall(c, oc, om, "addRowReal", a.str(), g, "[]", "[]", ent.ok()); c.modsSinceBasis[oc]++;
+         }
+         else if(k < 30 && rational && nc < 5)
+         {
+            int size = nr + (c.rng.coin(1, 3) ? 1 : 0); GL nums(size, 0, LSENT), dens(size, 1, LSENT); DSVectorRational v; std::vector<std::pair<int, std::string>> ej; int cnt = 0;
+            for(int i = 0; i < nr; i++) if(c.rng.coin()) { long n, d; ratPair(n, d); nums[i] = n; dens[i] = d; if(n != 0) { Rational q(n, d); v.add(i, q); ej.push_back({i, qrat(q)}); cnt++; } }
+            long on, od, ln, ld, un, ud; ratPair(on, od); ratPair(ln, ld); ratPair(un, ud); Rational lo(ln, ld), up(un, ud); if(up < lo) { std::swap(ln, un); std::swap(ld, ud); std::swap(lo, up); }
+            Rational obj(on, od);
+            m.addColRational(LPColRational(obj, v, up, lo)); J g; g.s("obj", qrat(obj)).s("lo", qrat(lo)).raw("vec", jsp(ej)).s("up", qrat(up)); modEventQ(c, om, "addCol", "rat", g.str());
+            pending() = "SoPlex_addColRational"; SoPlex_addColRational(h, nums.p(), dens.p(), size, cnt, on, od, ln, ld, un, ud);
+            J a; a.raw("nums", jlongs(nums, size)).raw("dens", jlongs(dens, size)).i("size", size).i("nnz", cnt).s("objn", std::to_string(on)).s("objd", std::to_string(od)).s("lbn", std::to_string(ln)).s("lbd", std::to_string(ld)).s("ubn", std::to_string(un)).s("ubd", std::to_string(ud));
+            ccall(c, oc, om, "addColRational", a.str(), g.str(), "[]", "[]", nums.ok() && dens.ok()); c.modsSinceBasis[oc]++;
+         }
+         else if(k < 36 && rational && nr < 5)
+         {
+            int size = nc + (c.rng.coin(1, 3) ? 1 : 0); GL nums(size, 0, LSENT), dens(size, 1, LSENT); DSVectorRational v; std::vector<std::pair<int, std::string>> ej; int cnt = 0;
+            for(int i = 0; i < nc; i++) if(c.rng.coin()) { long n, d; ratPair(n, d); nums[i] = n; dens[i] = d; if(n != 0) { Rational q(n, d); v.add(i, q); ej.push_back({i, qrat(q)}); cnt++; } }
+            long ln, ld, un, ud; ratPair(ln, ld); ratPair(un, ud); Rational lo(ln, ld), up(un, ud); if(up < lo) { std::swap(ln, un); std::swap(ld, ud); std::swap(lo, up); }
+            m.addRowRational(LPRowRational(lo, v, up)); J g; g.s("lhs", qrat(lo)).raw("vec", jsp(ej)).s("rhs", qrat(up)); modEventQ(c, om, "addRow", "rat", g.str());
+            pending() = "SoPlex_addRowRational"; SoPlex_addRowRational(h, nums.p(), dens.p(), size, cnt, ln, ld, un, ud);
+            J a; a.raw("nums", jlongs(nums, size)).raw("dens", jlongs(dens, size)).i("size", size).i("nnz", cnt).s("lbn", std::to_string(ln)).s("lbd", std::to_string(ld)).s("ubn", std::to_string(un)).s("ubd", std::to_string(ud));
+            ccall(c, oc, om, "addRowRational", a.str(), g.str(), "[]", "[]", nums.ok() && dens.ok()); c.modsSinceBasis[oc]++;
+         }
+         else if(k < 39 && nc > 1) { int j = c.rng.R(0, nc - 1); m.removeColReal(j); J g; g.i("i", j); modEvent(c, om, "removeCol", g.str()); pending() = "SoPlex_removeColReal"; SoPlex_removeColReal(h, j); J a; a.i("i", j); ccall(c, oc, om, "removeColReal", a.str(), g.str(), "[]", "[]", true); c.modsSinceBasis[oc]++; }
+         else if(k < 42 && nr > 1) { int i = c.rng.R(0, nr - 1); m.removeRowReal(i); J g; g.i("i", i); modEvent(c, om, "removeRow", g.str()); pending() = "SoPlex_removeRowReal"; SoPlex_removeRowReal(h, i); J a; a.i("i", i); ccall(c, oc, om, "removeRowReal", a.str(), g.str(), "[]", "[]", true); c.modsSinceBasis[oc]++; }
+         else if(k < 58)
+         {
+            // vector and single-element changes through the floating-point functions
+            int w = c.rng.R(0, 12);
+            auto rowSide = [&](bool lower) { double v = lower ? gen.lower() : gen.upperFrom(-infinity); if(rational && (v <= -infinity || v >= infinity)) v = lower ? -5.0 : 7.0; return v; };
+            if(w == 0 && nc > 0) { GD a1(nc, 0.0, DSENT); VectorReal v(nc); for(int j = 0; j < nc; j++) { a1[j] = gen.cost(); v[j] = a1[j]; } m.changeObjReal(v); std::string g = "{\"v\":" + dvec(v) + "}"; modEvent(c, om, "changeObjV", g);
+               pending() = "SoPlex_changeObjReal"; SoPlex_changeObjReal(h, a1.p(), nc); J a; a.raw("v", jgd(a1, nc)).i("dim", nc); ccall(c, oc, om, "changeObjReal", a.str(), g, "[]", "[]", a1.ok()); }
+            else if(w == 1 && nr > 0) { GD a1(nr, 0.0, DSENT); VectorReal v(nr); for(int i = 0; i < nr; i++) { double r = m.rhsReal(i); double l = rowSide(true); if(l > r) l = r; a1[i] = l; v[i] = l; } m.changeLhsReal(v); std::string g = "{\"v\":" + dvec(v) + "}"; modEvent(c, om, "changeLhsV", g);
+               pending() = "SoPlex_changeLhsReal"; SoPlex_changeLhsReal(h, a1.p(), nr); J a; a.raw("v", jgd(a1, nr)).i("dim", nr); ccall(c, oc, om, "changeLhsReal", a.str(), g, "[]", "[]", a1.ok()); }
+            else if(w == 2 && nr > 0) { GD a1(nr, 0.0, DSENT); VectorReal v(nr); for(int i = 0; i < nr; i++) { double l = m.lhsReal(i); double r = rowSide(false); if(r < l) r = l; a1[i] = r; v[i] = r; } m.changeRhsReal(v); std::string g = "{\"v\":" + dvec(v) + "}"; modEvent(c, om, "changeRhsV", g);
+               pending() = "SoPlex_changeRhsReal"; SoPlex_changeRhsReal(h, a1.p(), nr); J a; a.raw("v", jgd(a1, nr)).i("dim", nr); ccall(c, oc, om, "changeRhsReal", a.str(), g, "[]", "[]", a1.ok()); }
+            else if(w == 3 && nr > 0) { GD a1(nr, 0.0, DSENT), a2(nr, 0.0, DSENT); VectorReal l(nr), r(nr); for(int i = 0; i < nr; i++) { double x, y; sides(c, gen, x, y); if(rational) { x = x <= -infinity ? -3 : x; y = y >= infinity ? x + 2 : y; } a1[i] = l[i] = x; a2[i] = r[i] = y; }
+               m.changeRangeReal(l, r); std::string g = "{\"lhs\":" + dvec(l) + ",\"rhs\":" + dvec(r) + "}"; modEvent(c, om, "changeRangeV", g);
+               pending() = "SoPlex_changeRangeReal"; SoPlex_changeRangeReal(h, a1.p(), a2.p(), nr); J a; a.raw("lhs", jgd(a1, nr)).raw("rhs", jgd(a2, nr)).i("dim", nr); ccall(c, oc, om, "changeRangeReal", a.str(), g, "[]", "[]", a1.ok() && a2.ok()); }
+            else if(w == 4 && nc > 0) { GD a1(nc, 0.0, DSENT), a2(nc, 0.0, DSENT); VectorReal l(nc), u(nc); for(int j = 0; j < nc; j++) { double x = gen.lower(), y = gen.upperFrom(x); if(rational) { x = x <= -infinity ? -3 : x; y = y >= infinity ? x + 2 : y; } a1[j] = l[j] = x; a2[j] = u[j] = y; }
+               m.changeBoundsReal(l, u); std::string g = "{\"lo\":" + dvec(l) + ",\"up\":" + dvec(u) + "}"; modEvent(c, om, "changeBoundsV", g);
+               pending() = "SoPlex_changeBoundsReal"; SoPlex_changeBoundsReal(h, a1.p(), a2.p(), nc); J a; a.raw("lo", jgd(a1, nc)).raw("up", jgd(a2, nc)).i("dim", nc); ccall(c, oc, om, "changeBoundsReal", a.str(), g, "[]", "[]", a1.ok() && a2.ok()); }
+            else if(w == 5 && nc > 0) { GD a1(nc, 0.0, DSENT); VectorReal v(nc); for(int j = 0; j < nc; j++) { double u = m.upperReal(j); double x = gen.lower(); if(rational && x <= -infinity) x = -4; if(x > u) x = u; a1[j] = v[j] = x; } m.changeLowerReal(v); std::string g = "{\"v\":" + dvec(v) + "}"; modEvent(c, om, "changeLowerV", g);
+               pending() = "SoPlex_changeLowerReal"; SoPlex_changeLowerReal(h, a1.p(), nc); J a; a.raw("v", jgd(a1, nc)).i("dim", nc); ccall(c, oc, om, "changeLowerReal", a.str(), g, "[]", "[]", a1.ok()); }
+            else if(w == 6 && nc > 0) { GD a1(nc, 0.0, DSENT); VectorReal v(nc); for(int j = 0; j < nc; j++) { double l = m.lowerReal(j); double x = gen.upperFrom(l); if(rational && x >= infinity) x = l + 3; a1[j] = v[j] = x; } m.changeUpperReal(v); std::string g = "{\"v\":" + dvec(v) + "}"; modEvent(c, om, "changeUpperV", g);
+               pending() = "SoPlex_changeUpperReal"; SoPlex_changeUpperReal(h, a1.p(), nc); J a; a.raw("v", jgd(a1, nc)).i("dim", nc); ccall(c, oc, om, "changeUpperReal", a.str(), g, "[]", "[]", a1.ok()); }
+            else if(w == 7 && nr > 0) { int i = c.rng.R(0, nr - 1); double r = m.rhsReal(i), v = rowSide(true); if(v > r) v = r; m.changeLhsReal(i, v); J g; g.i("i", i).q("v", v); modEvent(c, om, "changeLhs", g.str()); pending() = "SoPlex_changeRowLhsReal"; SoPlex_changeRowLhsReal(h, i, v); ccall(c, oc, om, "changeRowLhsReal", g.str(), g.str(), "[]", "[]", true); }
+            else if(w == 8 && nr > 0) { int i = c.rng.R(0, nr - 1); double l = m.lhsReal(i), v = rowSide(false); if(v < l) v = l; m.changeRhsReal(i, v); J g; g.i("i", i).q("v", v); modEvent(c, om, "changeRhs", g.str()); pending() = "SoPlex_changeRowRhsReal"; SoPlex_changeRowRhsReal(h, i, v); ccall(c, oc, om, "changeRowRhsReal", g.str(), g.str(), "[]", "[]", true); }
+            else if(w == 9 && nr > 0) { int i = c.rng.R(0, nr - 1); double x, y; sides(c, gen, x, y); if(rational) { x = x <= -infinity ? -3 : x; y = y >= infinity ? x + 2 : y; } m.changeRangeReal(i, x, y); J g; g.i("i", i).q("lhs", x).q("rhs", y); modEvent(c, om, "changeRange", g.str()); pending() = "SoPlex_changeRowRangeReal"; SoPlex_changeRowRangeReal(h, i, x, y); ccall(c, oc, om, "changeRowRangeReal", g.str(), g.str(), "[]", "[]", true); }
+            else if(w == 10 && nc > 0) { int j = c.rng.R(0, nc - 1); double x = gen.lower(), y = gen.upperFrom(x); if(rational) { x = x <= -infinity ? -3 : x; y = y >= infinity ? x + 2 : y; } m.changeBoundsReal(j, x, y); J g; g.i("i", j).q("lo", x).q("up", y); modEvent(c, om, "changeBounds", g.str()); pending() = "SoPlex_changeVarBoundsReal"; SoPlex_changeVarBoundsReal(h, j, x, y); ccall(c, oc, om, "changeVarBoundsReal", g.str(), g.str(), "[]", "[]", true); }
+            else if(w == 11 && nc > 0) { int j = c.rng.R(0, nc - 1); double u = m.upperReal(j), x = gen.lower(); if(rational && x <= -infinity) x = -4; if(x > u) x = u; m.changeLowerReal(j, x); J g; g.i("i", j).q("v", x); modEvent(c, om, "changeLower", g.str()); pending() = "SoPlex_changeVarLowerReal"; SoPlex_changeVarLowerReal(h, j, x); ccall(c, oc, om, "changeVarLowerReal", g.str(), g.str(), "[]", "[]", true); }
+            else if(w == 12 && nc > 0) { int j = c.rng.R(0, nc - 1); double l = m.lowerReal(j), x = gen.upperFrom(l); if(rational && x >= infinity) x = l + 3; m.changeUpperReal(j, x); J g; g.i("i", j).q("v", x); modEvent(c, om, "changeUpper", g.str()); pending() = "SoPlex_changeVarUpperReal"; SoPlex_changeVarUpperReal(h, j, x); ccall(c, oc, om, "changeVarUpperReal", g.str(), g.str(), "[]", "[]", true); }
+            else continue;
+            c.modsSinceBasis[oc]++;
+         }
+         else if(k < 66 && rational)
+         {
+            int w = c.rng.R(0, 3);
+            if(w == 0 && nc > 0) { GL n1(nc, 0, LSENT), d1(nc, 1, LSENT); VectorRational v(nc); for(int j = 0; j < nc; j++) { long n, d; ratPair(n, d); n1[j] = n; d1[j] = d; v[j] = Rational(n, d); } m.changeObjRational(v); std::string g = "{\"v\":" + qvec(v) + "}"; modEventQ(c, om, "changeObjV", "rat", g);
+               pending() = "SoPlex_changeObjRational"; SoPlex_changeObjRational(h, n1.p(), d1.p(), nc); J a; a.raw("nums", jlongs(n1, nc)).raw("dens", jlongs(d1, nc)).i("dim", nc); ccall(c, oc, om, "changeObjRational", a.str(), g, "[]", "[]", n1.ok() && d1.ok()); }
+            else if(w == 1 && nr > 0) { GL n1(nr, 0, LSENT), d1(nr, 1, LSENT); VectorRational v(nr); for(int i = 0; i < nr; i++) { long n, d; ratPair(n, d); Rational q(n, d); if(q > m.rhsRational(i)) { q = m.rhsRational(i); n = (long)numerator(q); d = (long)denominator(q); } n1[i] = n; d1[i] = d; v[i] = q; } m.changeLhsRational(v); std::string g = "{\"v\":" + qvec(v) + "}"; modEventQ(c, om, "changeLhsV", "rat", g);
+               pending() = "SoPlex_changeLhsRational"; SoPlex_changeLhsRational(h, n1.p(), d1.p(), nr); J a; a.raw("nums", jlongs(n1, nr)).raw("dens", jlongs(d1, nr)).i("dim", nr); ccall(c, oc, om, "changeLhsRational", a.str(), g, "[]", "[]", n1.ok() && d1.ok()); }
+            else if(w == 2 && nr > 0) { GL n1(nr, 0, LSENT), d1(nr, 1, LSENT); VectorRational v(nr); for(int i = 0; i < nr; i++) { long n, d; ratPair(n, d); Rational q(n, d); if(q < m.lhsRational(i)) { q = m.lhsRational(i); n = (long)numerator(q); d = (long)denominator(q); } n1[i] = n; d1[i] = d; v[i] = q; } m.changeRhsRational(v); std::string g = "{\"v\":" + qvec(v) + "}"; modEventQ(c, om, "changeRhsV", "rat", g);
+               pending() = "SoPlex_changeRhsRational"; SoPlex_changeRhsRational(h, n1.p(), d1.p(), nr); J a; a.raw("nums", jlongs(n1, nr)).raw("dens", jlongs(d1, nr)).i("dim", nr); ccall(c, oc, om, "changeRhsRational", a.str(), g, "[]", "[]", n1.ok() && d1.ok()); }
+            else if(w == 3 && nc > 0) { int j = c.rng.R(0, nc - 1); long ln, ld, un, ud; ratPair(ln, ld); ratPair(un, ud); Rational lo(ln, ld), up(un, ud); if(up < lo) { std::swap(ln, un); std::swap(ld, ud); std::swap(lo, up); }
+               m.changeBoundsRational(j, lo, up); J g; g.i("i", j).s("lo", qrat(lo)).s("up", qrat(up)); modEventQ(c, om, "changeBounds", "rat", g.str());
+               pending() = "SoPlex_changeVarBoundsRational"; SoPlex_changeVarBoundsRational(h, j, ln, ld, un, ud); J a; a.i("i", j).s("lbn", std::to_string(ln)).s("lbd", std::to_string(ld)).s("ubn", std::to_string(un)).s("ubd", std::to_string(ud)); ccall(c, oc, om, "changeVarBoundsRational", a.str(), g.str(), "[]", "[]", true); }
+            else continue;
+            c.modsSinceBasis[oc]++;
+         }
+         else if(k < 84)
+         {
+            // getters: the C results next to what the C++ getters of the mirror return
+            int w = c.rng.R(0, 8);
+            if(w == 0) { int a1 = SoPlex_numRows(h), a2 = SoPlex_numCols(h); ccall(c, oc, om, "dims", "{}", "{}", "[" + std::to_string(a1) + "," + std::to_string(a2) + "]", "[" + std::to_string(m.numRows()) + "," + std::to_string(m.numCols()) + "]", true); }
+            else if(w == 1) { static const int codes[] = {SoPlex::OBJSENSE, SoPlex::SYNCMODE, SoPlex::SOLVEMODE, SoPlex::READMODE, SoPlex::CHECKMODE, SoPlex::ALGORITHM, SoPlex::SCALER, SoPlex::ITERLIMIT};
+               ccall(c, oc, om, "getIntParam", "{}", "{}", jarr(8, [&](int i) { return std::to_string(SoPlex_getIntParam(h, codes[i])); }), jarr(8, [&](int i) { return std::to_string(m.intParam((SoPlex::IntParam)codes[i])); }), true); }
+            else if(w == 2 && nc > 0) { int dim = nc + (c.rng.coin(1, 3) ? 2 : 0); GD a1(dim, 777.0, DSENT); pending() = "SoPlex_getLowerReal"; SoPlex_getLowerReal(h, a1.p(), nc); VectorReal v(nc); m.getLowerReal(v); J a; a.i("dim", nc).i("alloc", dim); ccall(c, oc, om, "getLowerReal", a.str(), "{}", jgd(a1, dim), jarr(dim, [&](int i) { return jq(qd(i < nc ? v[i] : 777.0)); }), a1.ok()); }
+            else if(w == 3 && nc > 0) { int dim = nc + (c.rng.coin(1, 3) ? 2 : 0); GD a1(dim, 777.0, DSENT); pending() = "SoPlex_getUpperReal"; SoPlex_getUpperReal(h, a1.p(), nc); VectorReal v(nc); m.getUpperReal(v); J a; a.i("dim", nc).i("alloc", dim); ccall(c, oc, om, "getUpperReal", a.str(), "{}", jgd(a1, dim), jarr(dim, [&](int i) { return jq(qd(i < nc ? v[i] : 777.0)); }), a1.ok()); }
+            else if(w == 4 && nc > 0) { int dim = nc + (c.rng.coin(1, 3) ? 2 : 0); GD a1(dim, 777.0, DSENT); pending() = "SoPlex_getObjReal"; SoPlex_getObjReal(h, a1.p(), nc); VectorReal v(nc); m.getObjReal(v); J a; a.i("dim", nc).i("alloc", dim); ccall(c, oc, om, "getObjReal", a.str(), "{}", jgd(a1, dim), jarr(dim, [&](int i) { return jq(qd(i < nc ? v[i] : 777.0)); }), a1.ok()); }
+            else if(w == 5 && nr > 0) { int i = c.rng.R(0, nr - 1); GL idx(nc + 2, -7, LSENT); GD co(nc + 2, 777.0, DSENT); int nn = -5; pending() = "SoPlex_getRowVectorReal"; SoPlex_getRowVectorReal(h, i, &nn, idx.p(), co.p());
+               DSVector row; m.getRowVectorReal(i, row); std::vector<std::pair<int, std::string>> e1, e2; for(int t = 0; t < nn && t < nc + 2; t++) e1.push_back({(int)idx[t], qd(co[t])}); for(int t = 0; t < row.size(); t++) e2.push_back({row.index(t), qd(row.value(t))});
+               J a; a.i("i", i); ccall(c, oc, om, "getRowVectorReal", a.str(), "{}", "{\"nnz\":" + std::to_string(nn) + ",\"vec\":" + jsp(e1) + "}", "{\"nnz\":" + std::to_string(row.size()) + ",\"vec\":" + jsp(e2) + "}", idx.ok() && co.ok()); }
+            else if(w == 6 && nr > 0) { int i = c.rng.R(0, nr - 1); double lb = 777, ub = 777; pending() = "SoPlex_getRowBoundsReal"; SoPlex_getRowBoundsReal(h, i, &lb, &ub); J a; a.i("i", i); ccall(c, oc, om, "getRowBoundsReal", a.str(), "{}", "[" + jq(qd(lb)) + "," + jq(qd(ub)) + "]", "[" + jq(qd(m.lhsReal(i))) + "," + jq(qd(m.rhsReal(i))) + "]", true); }
+            else if(w == 7 && nr > 0 && rational) { int i = c.rng.R(0, nr - 1); GL idx(nc + 2, -7, LSENT), cn(nc + 2, -7, LSENT), cd(nc + 2, -7, LSENT); int nn = -5; pending() = "SoPlex_getRowVectorRational"; SoPlex_getRowVectorRational(h, i, &nn, idx.p(), cn.p(), cd.p());
+               LPRowRational lr; m.getRowRational(i, lr); std::vector<std::pair<int, std::string>> e1, e2; for(int t = 0; t < nn && t < nc + 2; t++) e1.push_back({(int)idx[t], qrat(Rational(cn[t], cd[t] == 0 ? 1 : cd[t]))}); for(int t = 0; t < lr.rowVector().size(); t++) e2.push_back({lr.rowVector().index(t), qrat(lr.rowVector().value(t))});
+               J a; a.i("i", i); ccall(c, oc, om, "getRowVectorRational", a.str(), "{}", "{\"nnz\":" + std::to_string(nn) + ",\"vec\":" + jsp(e1) + "}", "{\"nnz\":" + std::to_string(lr.rowVector().size()) + ",\"vec\":" + jsp(e2) + "}", idx.ok() && cn.ok() && cd.ok()); }
+            else if(w == 8 && nr > 0 && rational) { int i = c.rng.R(0, nr - 1); if(m.lhsRational(i) <= Rational(-infinity) || m.rhsRational(i) >= Rational(infinity)) continue;   /* an infinite side has no long/long representation */ long a1 = -7, a2 = -7, a3 = -7, a4 = -7; pending() = "SoPlex_getRowBoundsRational"; SoPlex_getRowBoundsRational(h, i, &a1, &a2, &a3, &a4); J a; a.i("i", i);
+               ccall(c, oc, om, "getRowBoundsRational", a.str(), "{}", "[" + jq(qrat(Rational(a1, a2 == 0 ? 1 : a2))) + "," + jq(qrat(Rational(a3, a4 == 0 ? 1 : a4))) + "]", "[" + jq(qrat(m.lhsRational(i))) + "," + jq(qrat(m.rhsRational(i))) + "]", true); }
+            else continue;
+         }
+         else if(k < 94)
+         {
+            if(nr == 0 || nc == 0) continue;
+            // solve both; every result getter of the C interface next to the C++ getter of the mirror
+            SolveOpts so; so.complete = false; int mst = rational ? optimizeQ(c, om, so) : optimize(c, om, so);
+            pending() = "SoPlex_optimize"; int cst = SoPlex_optimize(h); c.modsSinceBasis[oc] = 0;
+            GD x(nc, 777.0, DSENT), y(nr, 777.0, DSENT), d(nc, 777.0, DSENT); VectorReal mx(nc), my(nr), md(nc); mx.clear(); my.clear(); md.clear();
+            for(int j = 0; j < nc; j++) x[j] = d[j] = 0.0; for(int i = 0; i < nr; i++) y[i] = 0.0;
+            pending() = "SoPlex result getters"; SoPlex_getPrimalReal(h, x.p(), nc); SoPlex_getDualReal(h, y.p(), nr); SoPlex_getRedCostReal(h, d.p(), nc);
+            m.getPrimalReal(mx.get_ptr(), nc); m.getDualReal(my.get_ptr(), nr); m.getRedCostReal(md.get_ptr(), nc);
+            J cr, mr; cr.i("status", cst).i("getStatus", SoPlex_getStatus(h)).q("objval", SoPlex_objValueReal(h)).i("iters", SoPlex_getNumIterations(h)).raw("x", jgd(x, nc)).raw("y", jgd(y, nr)).raw("d", jgd(d, nc))
+              .raw("brow", jarr(nr, [&](int i) { return std::to_string(SoPlex_basisRowStatus(h, i)); })).raw("bcol", jarr(nc, [&](int j) { return std::to_string(SoPlex_basisColStatus(h, j)); }));
+            mr.i("status", mst).i("getStatus", (int)m.status()).q("objval", m.objValueReal()).i("iters", m.numIterations()).raw("x", dvec(mx)).raw("y", dvec(my)).raw("d", dvec(md))
+              .raw("brow", jarr(nr, [&](int i) { return std::to_string((int)m.basisRowStatus(i)); })).raw("bcol", jarr(nc, [&](int j) { return std::to_string((int)m.basisColStatus(j)); }));
+            if(rational)
+            {
+               pending() = "SoPlex_objValueRationalString"; char* os = SoPlex_objValueRationalString(h); cr.s("objstr", os ? std::string(os, strnlen(os, 4000)) : "null"); delete[] os; mr.s("objstr", m.objValueRational().str());
+               if(cst == (int)SPxSolver::OPTIMAL && mst == cst) { pending() = "SoPlex_getPrimalRationalString"; char* ps = SoPlex_getPrimalRationalString(h, nc); cr.s("primalstr", ps ? std::string(ps, strnlen(ps, 4000)) : "null"); delete[] ps;
+                  VectorRational px(nc); m.getPrimalRational(px); std::string e2; for(int j = 0; j < nc; j++) { e2 += px[j].str(); e2 += " "; } mr.s("primalstr", e2); }
+            }
+            ccall(c, oc, om, "optimize", "{}", "{}", cr.str(), mr.str(), x.ok() && y.ok() && d.ok());
+         }
+         else if(k < 97)
+         {
+            // file functions on a fresh pair of objects: write from both, compare the bytes; read back into a fresh pair, compare the objects
+            const char* ext = c.rng.coin() ? ".lp" : ".mps"; std::string f1 = g_tmpdir + "/c" + std::to_string(e) + "_" + std::to_string(step) + ext, f2 = g_tmpdir + "/m" + std::to_string(e) + "_" + std::to_string(step) + ext;
+            pending() = "SoPlex_writeFileReal"; SoPlex_writeFileReal(h, (char*)f1.c_str()); bool mw = m.writeFile(f2.c_str());
+            void* h2 = SoPlex_create(); SoPlex m2; SoPlex_setIntParam(h2, SoPlex::VERBOSITY, 0); m2.setIntParam(SoPlex::VERBOSITY, 0);
+            pending() = "SoPlex_readInstanceFile"; int cr = SoPlex_readInstanceFile(h2, f1.c_str()); bool mr2 = m2.readFile(f1.c_str());
+            std::string p1 = proj(*(SoPlex*)h2, false), p2 = proj(m2, false);
+            J cres, mres; cres.s("written", fileBytesDigest(f1)).i("readRet", cr).raw("readSt", p1); mres.s("written", mw ? fileBytesDigest(f2) : "none").i("readRet", mr2 ? 1 : 0).raw("readSt", p2);
+            // settings and basis files on the fresh pair
+            std::string fs = g_tmpdir + "/s" + std::to_string(e) + "_" + std::to_string(step) + ".set", fb = g_tmpdir + "/b" + std::to_string(e) + "_" + std::to_string(step) + ".bas";
+            m.saveSettingsFile(fs.c_str(), c.rng.coin());
+            pending() = "SoPlex_readSettingsFile"; int cs = SoPlex_readSettingsFile(h2, fs.c_str()); bool ms = m2.loadSettingsFile(fs.c_str());
+            SoPlex_setIntParam(h2, SoPlex::VERBOSITY, 0); m2.setIntParam(SoPlex::VERBOSITY, 0);
+            cres.i("settingsRet", cs).s("settings", paramsDigest(*(SoPlex*)h2)); mres.i("settingsRet", ms ? 1 : 0).s("settings", paramsDigest(m2));
+            if(m.hasBasis() && cr && mr2 && m.writeBasisFile(fb.c_str()))
+            {
+               pending() = "SoPlex_readBasisFile"; int cb = SoPlex_readBasisFile(h2, fb.c_str()); bool mb = m2.readBasisFile(fb.c_str());
+               cres.i("basisRet", cb).raw("basisSt", proj(*(SoPlex*)h2, false)); mres.i("basisRet", mb ? 1 : 0).raw("basisSt", proj(m2, false));
+            }
+            SoPlex_free(h2); remove(f1.c_str()); remove(f2.c_str()); remove(fs.c_str()); remove(fb.c_str());
+            J a; a.s("ext", ext); ccall(c, oc, om, "files", a.str(), "{}", cres.str(), mres.str(), true);
+         }
+         else
+         {
+            m.clearLPReal(); modEvent(c, om, "clearLP", "{}"); pending() = "SoPlex_clearLPReal"; SoPlex_clearLPReal(h); ccall(c, oc, om, "clearLPReal", "{}", "{}", "[]", "[]", true); c.modsSinceBasis[oc]++;
+         }
+      }
+      // SoPlex_free is the unique_ptr deleter's delete
+      pending() = "SoPlex_free"; SoPlex* raw = c.objs[oc].release(); SoPlex_free(raw); c.objs.erase(oc); { J ev; ev.s("a", "destroy").i("o", oc); emit(c, oc, ev); }
+   }
+}
+
 // ---------------------------------------------------------------- C14: basis files
 static std::string fileTokens(const std::string& fn)
 {
@@ -1359,7 +1582,6 @@ static std::string fileTokens(const std::string& fn)
    }
    o << "]"; return o.str();
 }
-static std::string g_tmpdir;
 static void basisFileRoundTrip(Ctx& c, int o)
 {
    SoPlex& s = *c.objs[o]; int nr = s.numRows(), nc = s.numCols();
@@ -1616,6 +1838,7 @@ static int runWorkload(Ctx& c, const std::string& wl, int len)
    else if(wl == "basfile") wlBasFile(c, 1, len);
    else if(wl == "exact") wlExact(c, 1, len, 5);
    else if(wl == "exactbig") wlExact(c, 1, len, 12);
+   else if(wl == "cint") { wlCInt(c, 1, len); }
    else if(wl == "binvq") { g_wellScaled = false; wlBinvQ(c, 1, len); }
    else if(wl == "binv") { g_wellScaled = false; wlBinv(c, 1, len); }
    else if(wl == "scale") { g_wellScaled = false; wlScale(c, 1, len); }
